@@ -527,9 +527,34 @@ func cmdCheck(args []string) int {
 			}
 			o := e.Exec(sc, harness.ExecOpts{})
 			v := harness.FindSame(o, fv.Violation)
+			var prelude []json.RawMessage
+			if v == nil {
+				// not reproducible in a fresh process on its own: the worker had
+				// run earlier scenarios in the same process.  Re-create that
+				// history (the worker's preceding indices) in a child process.
+				prelude, v = reproduceWithHistory(e, en, seed, *tier, fv, nw)
+			}
 			if v == nil {
 				fmt.Fprintf(os.Stderr, "violation at index %d did not reproduce in the parent process: simulator not deterministic\n", fv.Index)
 				infra = true
+				continue
+			}
+			if prelude != nil {
+				raw, _ := json.Marshal(sc)
+				rp := &harness.Replay{Engine: en, Property: *prop, Seed: seed, Index: fv.Index, Scenario: raw, Prelude: prelude, Violation: *v,
+					Note: "the violation depends on state left behind in the process by the prelude scenarios (not minimised)"}
+				if tx, ok := e.(harness.Texter); ok {
+					rp.Program = strings.Split(tx.Text(sc), "\n")
+				}
+				path := filepath.Join(outDir, fmt.Sprintf("%s-%s-seed%d-idx%d-%s.json", *prop, en, seed, fv.Index, sanitize(v.Class)))
+				if err := harness.WriteReplay(path, rp); err != nil {
+					fmt.Fprintln(os.Stderr, err)
+					infra = true
+					continue
+				}
+				fmt.Printf("VIOLATION property=%s replay=%s\n", *prop, path)
+				fmt.Printf("  %s [%s]: %s\n", v.Class, v.Sig, firstLine(v.Detail))
+				violations++
 				continue
 			}
 			budget := 400
@@ -752,6 +777,13 @@ func runReplay(rp *harness.Replay) (*harness.Outcome, interface{}, error) {
 	}
 	if err := e.Prepare([]interface{}{sc}); err != nil {
 		return nil, nil, err
+	}
+	for _, raw := range rp.Prelude {
+		if psc, err := e.Decode(raw); err == nil {
+			if err := e.Prepare([]interface{}{psc}); err == nil {
+				harness.SafeExec(e, psc, harness.ExecOpts{})
+			}
+		}
 	}
 	o := e.Exec(sc, harness.ExecOpts{Schedule: rp.Schedule, UseSched: rp.UseSched, KeepLog: true})
 	if o.Infra != "" {
@@ -1195,4 +1227,45 @@ func cmdReplayRace(args []string) int {
 	}
 	racepar.Cleanup()
 	return bad
+}
+
+// reproduceWithHistory re-runs a worker's preceding scenarios followed by the
+// failing one in a child process (`sim replayhist`), with growing history.
+func reproduceWithHistory(e harness.Engine, en string, seed uint64, tier string, fv foundViolation, nw int) ([]json.RawMessage, *harness.Violation) {
+	self, err := os.Executable()
+	if err != nil {
+		return nil, nil
+	}
+	for _, k := range []int{1, 2, 4, 8, 16, 32, 64} {
+		var prelude []json.RawMessage
+		for j := k; j >= 1; j-- {
+			idx := fv.Index - j*nw
+			if idx < 0 {
+				continue
+			}
+			b, _ := json.Marshal(e.Gen(seed, idx, tier))
+			prelude = append(prelude, b)
+		}
+		if len(prelude) == 0 {
+			continue
+		}
+		rp := &harness.Replay{Engine: en, Property: e.Property(), Seed: seed, Index: fv.Index, Scenario: fv.Scenario, Prelude: prelude, Violation: fv.Violation}
+		tmp, err := os.CreateTemp("", "simhist-*.json")
+		if err != nil {
+			return nil, nil
+		}
+		tmp.Close()
+		defer os.Remove(tmp.Name())
+		if harness.WriteReplay(tmp.Name(), rp) != nil {
+			return nil, nil
+		}
+		cmd := exec.Command(self, "replay", tmp.Name())
+		cmd.Env = os.Environ()
+		out, _ := cmd.CombinedOutput()
+		if cmd.ProcessState != nil && cmd.ProcessState.ExitCode() == 1 && strings.Contains(string(out), "["+fv.Violation.Sig+"]") {
+			v := fv.Violation
+			return prelude, &v
+		}
+	}
+	return nil, nil
 }
